@@ -95,6 +95,9 @@ func foldApp(name string, sort Sort, args []*Term) *Term {
 		return FConst(modInverse(args[0].val, primeN), SN)
 	case "fpow_P", "fpow_N":
 		m := modulusOf(args[0].sort)
+		if args[1].val.Sign() < 0 || args[1].val.BitLen() > 300 {
+			return nil
+		}
 		return FConst(new(big.Int).Exp(args[0].val, args[1].val, m), args[0].sort)
 	case "issq":
 		if args[0].val.Sign() == 0 {
@@ -103,15 +106,25 @@ func foldApp(name string, sort Sort, args []*Term) *Term {
 		e := new(big.Int).Rsh(new(big.Int).Sub(primeP, bi(1)), 1)
 		return BoolC(new(big.Int).Exp(args[0].val, e, primeP).Cmp(bi(1)) == 0)
 	case "modeq":
+		if args[2].val.Sign() <= 0 {
+			return nil
+		}
 		d := new(big.Int).Sub(args[0].val, args[1].val)
 		return BoolC(d.Mod(d, args[2].val).Sign() == 0)
 	case "powmod":
+		if args[2].val.Sign() <= 0 || args[1].val.Sign() < 0 || args[1].val.BitLen() > 300 {
+			return nil
+		}
 		return IntC(new(big.Int).Exp(args[0].val, args[1].val, args[2].val))
-	case "bit":
+	case "bit", "hi":
+		if args[1].val.Sign() < 0 || args[1].val.BitLen() > 16 || args[0].val.Sign() < 0 {
+			return nil
+		}
+		if name == "hi" {
+			return IntC(new(big.Int).Rsh(args[0].val, uint(args[1].val.Int64())))
+		}
 		v := new(big.Int).Rsh(args[0].val, uint(args[1].val.Int64()))
 		return IntC(v.And(v, bi(1)))
-	case "hi":
-		return IntC(new(big.Int).Rsh(args[0].val, uint(args[1].val.Int64())))
 	case "valid":
 		x, y, z := args[0].val, args[1].val, args[2].val
 		if x.Sign() == 0 && y.Sign() == 0 && z.Sign() == 0 {
